@@ -126,3 +126,20 @@ Theorem c11_tie_aborted_less : forall l i j,
   StronglySorted (fun a b => aborted_less i j (snd b) (snd a) = false) (sort_idx l) /\ (forall x, In x (sort_idx l) <-> In x l).
 Proof. exact tie_sort_idx. Qed.
 Print Assumptions c11_tie_aborted_less.
+
+(* the FetchRequest carries the configured isolation level whenever its version can carry it (>= 4), for every
+   Config.Version: the version ladder of brokerConsumer.fetchNewMessages as modelled by [fetch_request_fields], which the
+   end-to-end harness compares with the (version, isolation) of every request the simulated broker decoded *)
+Theorem c11_request_isolation : forall v rc, 4 <= fst (fetch_request_fields v rc) ->
+  snd (fetch_request_fields v rc) = (if rc then 1 else 0).
+Proof. exact request_isolation. Qed.
+Print Assumptions c11_request_isolation.
+
+Theorem c11_request_fields_table :
+  fetch_request_fields (0, 8, 2, 0) true = (0, 0) /\ fetch_request_fields (0, 10, 0, 0) true = (2, 0) /\
+  fetch_request_fields (0, 11, 0, 0) true = (4, 1) /\ fetch_request_fields (1, 0, 0, 0) true = (4, 1) /\
+  fetch_request_fields (1, 1, 0, 0) true = (7, 1) /\ fetch_request_fields (2, 0, 0, 0) true = (7, 1) /\
+  fetch_request_fields (2, 1, 0, 0) true = (10, 1) /\ fetch_request_fields (2, 3, 0, 0) true = (11, 1) /\
+  fetch_request_fields (2, 8, 0, 0) false = (11, 0).
+Proof. exact request_fields_table. Qed.
+Print Assumptions c11_request_fields_table.
